@@ -721,7 +721,9 @@ func e2eFat(c *hx.Ctx, r *hx.Rng, id string, idx int) {
 		c.Fail(id+"/reopen", "-", fmt.Sprintf("cannot re-open: %v %s", err, p), histS)
 		return
 	}
-	floor2 := func(t time.Time) time.Time { return t.Truncate(time.Second).Add(-time.Duration(t.Second()%2) * time.Second) }
+	floor2 := func(t time.Time) time.Time {
+		return t.Truncate(time.Second).Add(-time.Duration(t.Second()%2) * time.Second)
+	}
 	for _, p := range all {
 		n := nodes[p]
 		sub := id + "/" + p
@@ -826,7 +828,9 @@ func e2eWorkspace(c *hx.Ctx, r *hx.Rng, id, kindName string, idx int, variant st
 			f, err = squashfs.Create(dev, size, 0, 4096)
 			if err == nil {
 				ws = f.Workspace()
-				finalize = func() error { return f.Finalize(squashfs.FinalizeOptions{NoCompressInodes: idx%2 == 0, NoCompressData: true, NoCompressFragments: true}) }
+				finalize = func() error {
+					return f.Finalize(squashfs.FinalizeOptions{NoCompressInodes: idx%2 == 0, NoCompressData: true, NoCompressFragments: true})
+				}
 				closer = func() { f.Close() }
 				reopen = func() (filesystem.FileSystem, error) { return squashfs.Read(dev, size, 0, 4096) }
 			}
@@ -932,7 +936,9 @@ func e2eWorkspace(c *hx.Ctx, r *hx.Rng, id, kindName string, idx int, variant st
 	for p := range nodes {
 		paths = append(paths, p)
 	}
-	sort.Slice(paths, func(i, j int) bool { return len(paths[i]) > len(paths[j]) || (len(paths[i]) == len(paths[j]) && paths[i] < paths[j]) })
+	sort.Slice(paths, func(i, j int) bool {
+		return len(paths[i]) > len(paths[j]) || (len(paths[i]) == len(paths[j]) && paths[i] < paths[j])
+	})
 	for _, p := range paths {
 		n := nodes[p]
 		full := filepath.Join(ws, filepath.FromSlash(p))
@@ -991,8 +997,9 @@ func e2eWorkspace(c *hx.Ctx, r *hx.Rng, id, kindName string, idx int, variant st
 			tag = "sqfs-symlink-relative-readlink"
 		case kindName == "sqfs" && variant == "dangling" && err != nil && strings.Contains(err.Error(), "unable to list xattrs"):
 			tag = "sqfs-dangling-symlink"
-		case kindName == "iso" && longLen >= isoLongLink:
-			tag = "iso-rr-continuation-aliased"
+		case kindName == "iso" && err != nil && strings.Contains(err.Error(), "does not fit a continuation area"):
+			// a Rock Ridge symlink target whose SL entries exceed one block is refused (with an error) by Finalize
+			tag = "iso-rr-symlink-over-block"
 		}
 		c.Fail(id+"/finalize", tag, fmt.Sprintf("Finalize failed: %v %s", err, p), desc)
 		return
@@ -1031,9 +1038,7 @@ func e2eWorkspace(c *hx.Ctx, r *hx.Rng, id, kindName string, idx int, variant st
 		})
 		if pp != "" || e != nil || fi == nil {
 			tag := "-"
-			if kindName == "iso" && longLen >= isoLongLink && pp != "" {
-				tag = "iso-rr-continuation-aliased"
-			}
+			_ = longLen // the Rock Ridge long-link defects are repaired: any failure here is unlisted
 			c.Fail(sub, tag, fmt.Sprintf("%s %s: cannot stat after re-open: %v %s", n.kind, p, e, pp), desc)
 			continue
 		}
@@ -1080,9 +1085,6 @@ func e2eWorkspace(c *hx.Ctx, r *hx.Rng, id, kindName string, idx int, variant st
 		}
 		if n.kind == kLink && target != n.target {
 			tag := "-"
-			if kindName == "iso" && len(n.target) >= isoLongLink {
-				tag = "iso-rr-continuation-aliased"
-			}
 			add(tag, "link target has %d bytes %q, want %d bytes %q", len(target), tailStr(target, 40), len(n.target), tailStr(n.target, 40))
 		}
 		if len(devs) == 0 {
